@@ -314,7 +314,6 @@ func TestVerif(t *testing.T) {
 	cfg := runCfg{tier: *fTier, seed: *fSeed, shard: *fShard, nshards: *fNShards, scale: *fScale}
 	if *fTier == "quick" {
 		maxInvsPerCheck = 250000
-		maxWallPerCheck = 45 * time.Second
 	}
 	res := newResult()
 	scs := mon.scenarios(cfg)
